@@ -401,6 +401,11 @@ func (x *Exec) applyContract(p *Path, ct *Contract, vars map[string]SV, results 
 				}
 			}
 			cenv := &SpecEnv{x: x, vars: cvars, H: pre, H0: p.H0, HN: pre}
+			for _, lt := range cc.Lets {
+				if sv, err := cenv.evalSV(lt.E); err == nil {
+					cenv = cenv.with(lt.Name, sv)
+				}
+			}
 			// (a) for all arguments: requires ==> returns, with result := cbret(args)
 			qenv := cenv
 			var decl, wrapped []string
@@ -451,6 +456,41 @@ func (x *Exec) applyContract(p *Path, ct *Contract, vars map[string]SV, results 
 					pr = "(and " + strings.Join(pre_, " ") + ")"
 				}
 				p.assume(fmt.Sprintf("(forall (%s) (! (=> %s (and %s)) :pattern (%s)))", strings.Join(decl, " "), pr, strings.Join(post_, " "), raw))
+			}
+			if len(cc.Each)+len(cc.Others) > 0 {
+				// the closure must not write the container the callee is traversing
+				if ego, ok := vars["ego"]; ok {
+					var cf frameSet
+					for _, as := range cc.Assigns {
+						x.addFrame(&cf, cenv, as.E)
+					}
+					for _, o := range append(append([]string{}, cf.objs...), cf.lists...) {
+						x.oblig(p, tag+"/closure-frame-disjoint", fmt.Sprintf("(not (= %s %s))", o, ego.T), x.cur.ct.Props, x.pos(in))
+					}
+				}
+				for _, rq := range cc.Requires {
+					if !mentionsAny(rq.E, prms) {
+						if t, err := cenv.evalBool(rq.E); err == nil {
+							x.oblig(p, tag+"/closure-requires/"+rq.Label, t, x.cur.ct.Props, x.pos(in))
+						}
+					} else if ct.CbArgs != nil {
+						// forall a0 a1: callee's callback_args(a0, a1) ==> requires(key := a0, val := a1)
+						aenv := env.with("a0", term("cb_a0", SVal)).with("a1", term("cb_a1", SVal))
+						ca, err1 := aenv.evalBool(ct.CbArgs.E)
+						renv := cenv
+						for i, prm := range prms {
+							if i < 2 {
+								renv = renv.with(prm.Name(), unwrapElem(prm.Type(), []string{"cb_a0", "cb_a1"}[i]))
+							}
+						}
+						rt, err2 := renv.evalBool(rq.E)
+						if err1 == nil && err2 == nil {
+							x.oblig(p, tag+"/closure-requires/"+rq.Label, fmt.Sprintf("(forall ((cb_a0 Val) (cb_a1 Val)) (=> %s %s))", ca, rt), x.cur.ct.Props, x.pos(in))
+						}
+					} else {
+						x.oblig(p, tag+"/closure-requires/"+rq.Label, "false", x.cur.ct.Props, x.pos(in))
+					}
+				}
 			}
 			ci := cloInfo{cc: cc, fv: v, cenv: cenv}
 			for _, as := range cc.Assigns {
@@ -572,8 +612,81 @@ func (x *Exec) applyContract(p *Path, ct *Contract, vars map[string]SV, results 
 			p.wfKnown = post
 		}
 	}
+	// (c') accumulating closures (contract with each / others clauses): facts per invocation key
+	for _, ci := range clos {
+		cc := ci.cc
+		if len(cc.Each)+len(cc.Others) == 0 {
+			continue
+		}
+		prms := ci.fv.Fn.Fn.Params
+		if len(prms) == 0 {
+			continue
+		}
+		t0 := fmt.Sprintf("(TrLen %s)", pre)
+		t1 := fmt.Sprintf("(TrLen %s)", post)
+		argAt := func(i int, j string) SV {
+			arr := "TrA"
+			if i == 1 {
+				arr = "TrB"
+			}
+			return unwrapElem(prms[i].Type(), fmt.Sprintf("(select (%s %s) %s)", arr, post, j))
+		}
+		penv := *ci.cenv
+		penv.H = post
+		penv.H0 = pre
+		// (i) every invocation that is the last one for its key has established `each`
+		jenv := &penv
+		for i := range prms {
+			if i < 2 {
+				jenv = jenv.with(prms[i].Name(), argAt(i, "acc_j"))
+			}
+		}
+		for _, ec := range cc.Each {
+			if t, err := jenv.evalBool(ec.E); err == nil {
+				k0 := argAt(0, "acc_j").T
+				k2 := argAt(0, "acc_j2").T
+				p.assume(fmt.Sprintf("(forall ((acc_j Int)) (! (=> (and (<= %s acc_j) (< acc_j %s) (forall ((acc_j2 Int)) (! (=> (and (< acc_j acc_j2) (< acc_j2 %s)) (not (= %s %s))) :pattern ((select (TrA %s) acc_j2))))) %s) :pattern ((select (TrA %s) acc_j))))",
+					t0, t1, t1, k2, k0, post, t, post))
+			} else {
+				x.errorf("%s: closure each: %v", cc.Func, err)
+			}
+		}
+		// (ii) keys that were never passed satisfy `others`
+		for _, oc := range cc.Others {
+			ss, so := quantSort(oc.Var.Type)
+			nm := "acc_k"
+			oenv := (&penv).with(oc.Var.Name, term(nm, so))
+			if t, err := oenv.evalBool(oc.C.E); err == nil {
+				kj := argAt(0, "acc_j").T
+				p.assume(fmt.Sprintf("(forall ((%s %s)) (=> (forall ((acc_j Int)) (! (=> (and (<= %s acc_j) (< acc_j %s)) (not (= %s %s))) :pattern ((select (TrA %s) acc_j)))) %s))",
+					nm, ss, t0, t1, kj, nm, post, t))
+			} else {
+				x.errorf("%s: closure others: %v", cc.Func, err)
+			}
+		}
+		// plain `ensures` of an accumulating closure are reflexive-transitive two-state relations (equalities
+		// between old and new state): they hold from the pre- to the post-state of any number of invocations
+		for _, en := range cc.Ensures {
+			if !mentionsAny(en.E, prms) {
+				if t, err := penv.evalBool(en.E); err == nil {
+					p.assume(t)
+				}
+			}
+		}
+		// argument-independent preconditions of the closure still hold afterwards (they are preserved by every invocation)
+		for _, rq := range cc.Requires {
+			if !mentionsAny(rq.E, prms) {
+				if t, err := penv.evalBool(rq.E); err == nil {
+					p.assume(t)
+				}
+			}
+		}
+	}
 	// (c) effect of the known closures: established by the last invocation, untouched when never invoked
 	for _, ci := range clos {
+		if len(ci.cc.Each)+len(ci.cc.Others) > 0 {
+			continue
+		}
 		calls := fmt.Sprintf("(- (TrLen %s) (TrLen %s))", post, pre)
 		penv := *ci.cenv
 		penv.H = post
@@ -649,6 +762,14 @@ func (x *Exec) callCallback(p *Path, fv SV, args []SV, res ssa.Value, in ssa.Ins
 		return wrapElem(sig.Params().At(i).Type(), args[i].T)
 	}
 	a0, a1 := toVal(0), toVal(1)
+	if ca := x.cur.ct.CbArgs; ca != nil {
+		env := x.specEnv(p).with("a0", term(a0, SVal)).with("a1", term(a1, SVal))
+		if g, err := env.evalBool(ca.E); err == nil {
+			x.oblig(p, "callback_args", g, ca.Props, x.pos(in))
+		} else {
+			x.errorf("%s: callback_args: %v", x.cur.ct.Func, err)
+		}
+	}
 	n := fmt.Sprintf("(TrLen %s)", p.H)
 	x.updMulti(p, map[string]string{
 		"TrA":   fmt.Sprintf("(store (TrA %s) %s %s)", p.H, n, a0),
